@@ -167,6 +167,8 @@ def gen_cases(rng, tier):
       elif fault == 'start_terminal':
         start_raw = r.choice(['exc', 'stop'])
       nodes = [_p(1, raw[0], a1), {'t': 'G', 's': [], 'm': [_p(2, raw[1], a2)], 'td': [_p(3, raw[2], a3)]}]
+      if k % 5 == 1 and '1' in spec and '0' in spec:
+        spec['1']['alias'] = 0          # class 1 is a distinct class named like class 0
       if k % 3 == 0:
         # with_args keys that collide with plug argument names
         nodes[0]['wa'] = True
